@@ -547,11 +547,12 @@ def _compose_qoperations_MProcess_MProcess(
         elem1.is_physicality_required and elem2.is_physicality_required
     )
 
+    # elem2 is applied first: the outcome of elem2 (earlier) is the slow index, as for StateEnsemble
     hss = []
     for hs2 in elem2.hss:
         for hs1 in elem1.hss:
-            hss.append(hs2 @ hs1)
-    shape = elem1.shape + elem2.shape
+            hss.append(hs1 @ hs2)
+    shape = elem2.shape + elem1.shape
 
     mprocess = MProcess(
         elem1.composite_system,
